@@ -1605,4 +1605,4 @@ _add_family(globals(), _sl, 'schemaleak', lambda case, impl: _sl.oracle(case, im
 # competing initial values are merged in declaration order, whatever the hash seed (F44)
 from harness import initorder as _io                    # noqa: E402
 from harness.mixins import add_family as _add_family    # noqa: E402
-_add_family(globals(), _io, 'initorder', _io.oracle, share=0.01)
+_add_family(globals(), _io, 'initorder', _io.oracle, share=0.015)
